@@ -5,6 +5,7 @@ import (
 	"encoding/json"
 	"fmt"
 	"os"
+	"path/filepath"
 	"strings"
 	"testing"
 	"testing/synctest"
@@ -39,6 +40,10 @@ type c11Plan struct {
 	// signed error report about itself addressed to the victim), after the victim's node entered the responses step and
 	// before the victim's operator returns: the victim's own refusal must still reach the board and cancel the round for all
 	Targeted bool `json:"targeted,omitempty"`
+	// Replay: after everything the victim's machine is restarted and its log replayed once (the documented procedure
+	// after every restart): the result file the replay rewrites for the refused operation is a refusal still, and the
+	// machine holds no key share
+	Replay bool `json:"replay,omitempty"`
 }
 
 var c11Kinds = []string{
@@ -50,7 +55,8 @@ func c11Gen(rt *rapid.T) c11Plan {
 	nt := rapid.SampledFrom([][2]int{{2, 2}, {3, 2}, {3, 3}, {4, 3}, {5, 3}}).Draw(rt, "nt")
 	return c11Plan{N: nt[0], T: nt[1], Dealer: rapid.IntRange(0, nt[0]-1).Draw(rt, "dealer"), Victim: rapid.IntRange(1, nt[0]-1).Draw(rt, "victim"),
 		Kind: rapid.SampledFrom(c11Kinds).Draw(rt, "kind"), A: rapid.IntRange(0, 100000).Draw(rt, "a"), B: rapid.IntRange(0, 255).Draw(rt, "b"),
-		Refeed: rapid.SampledFrom([]int{0, 0, 1, 2}).Draw(rt, "refeed"), Targeted: rapid.IntRange(0, 3).Draw(rt, "targeted") == 0}
+		Refeed: rapid.SampledFrom([]int{0, 0, 1, 2}).Draw(rt, "refeed"), Targeted: rapid.IntRange(0, 3).Draw(rt, "targeted") == 0,
+		Replay: rapid.Bool().Draw(rt, "replay")}
 }
 
 type c11Obs struct {
@@ -68,6 +74,9 @@ type c11Obs struct {
 	// deal (set for deviations of the private deal only)
 	VictimDealAnswer string
 	Deferred         int
+	// AfterReplay: what the victim's machine says about the refused operation after a restart with replay ("" = not tried)
+	AfterReplay        string
+	KeyringAfterReplay bool
 }
 
 var errDeferDeal = fmt.Errorf("no deal of another participant for the victim on the board yet")
@@ -247,6 +256,7 @@ func c11Execute(p c11Plan, root string) (obs c11Obs) {
 		return nil
 	}
 
+	var victimOp types.Operation
 	answer := func(i int, op *types.Operation) (err error) {
 		if strings.Contains(string(op.Type), "sig_proposal_await") {
 			return w.Nodes[i].Approve(op.ID)
@@ -304,6 +314,7 @@ func c11Execute(p c11Plan, root string) (obs c11Obs) {
 		}
 		if i == V && obs.Applied && string(op.Type) == "state_dkg_responses_await_confirmations" && obs.VictimDealAnswer == "" {
 			obs.VictimDealAnswer = string(res.Event)
+			_ = json.Unmarshal(file, &victimOp)
 		}
 		if i == D {
 			if err := mutate(op, &res); err != nil {
@@ -358,6 +369,32 @@ func c11Execute(p c11Plan, root string) (obs c11Obs) {
 		kr, _ := w.Keyring(i, round)
 		obs.Keyrings = append(obs.Keyrings, kr != nil)
 	}
+	if p.Replay && strings.HasSuffix(obs.VictimDealAnswer, "_error") && victimOp.ID != "" && obs.Panic == "" {
+		m := w.Machines[V]
+		resultPath := filepath.Join(m.ResultDir, victimOp.Filename()+"_result.json")
+		_ = os.Remove(resultPath)
+		func() {
+			defer func() {
+				if r := recover(); r != nil {
+					obs.Panic = fmt.Sprintf("participant %d's airgapped machine panicked while replaying its log after a restart: %v", V, r)
+				}
+			}()
+			if err := m.Reopen(); err != nil {
+				obs.Err = fmt.Errorf("reopening the victim's machine: %w", err)
+				return
+			}
+			_ = m.M.ReplayOperationsLog(round) // a replay that stops at the refused step reports an error; what it wrote counts
+		}()
+		obs.AfterReplay = "no result file"
+		if bz, err := os.ReadFile(resultPath); err == nil {
+			var res types.Operation
+			if json.Unmarshal(bz, &res) == nil {
+				obs.AfterReplay = string(res.Event)
+			}
+		}
+		kr, _ := w.Keyring(V, round)
+		obs.KeyringAfterReplay = kr != nil
+	}
 	return
 }
 
@@ -397,6 +434,15 @@ func c11Run(t *testing.T, st *vstat.Stats, p c11Plan) *viol {
 	}
 	if obs.Relented != "" {
 		return violf("refusal-not-repeated:"+p.Kind, "%s: %s", desc, obs.Relented)
+	}
+	if obs.AfterReplay != "" && obs.AfterReplay != "no result file" && !strings.HasSuffix(obs.AfterReplay, "_error") {
+		return violf("refusal-gone-after-replay:"+p.Kind, "%s: the victim's machine refused the operation that carried the deal (%s); after a restart with the documented replay the result file it rewrote for that operation says %s", desc, obs.VictimDealAnswer, obs.AfterReplay)
+	}
+	if obs.KeyringAfterReplay {
+		return violf("share-stored-after-replay:"+p.Kind, "%s: after a restart with replay the victim's machine holds a key share for the cancelled round", desc)
+	}
+	if obs.AfterReplay != "" {
+		st.Class("victim-restarted-and-replayed:" + map[bool]string{true: "refusal-rewritten", false: "nothing-rewritten"}[obs.AfterReplay != "no result file"])
 	}
 	if obs.Refed > 0 {
 		st.Class("refused-operation-fed-again")
